@@ -8,7 +8,8 @@ Contract (taken from the property statement), checked at run time on the REAL
   (EP) ``mca.parameter_elasticities``: the same for every parameter (rate constants, kinetic
        orders held as parameters, negative values included);
   (RC) ``mca.response_coefficients``: cell (variable or flux, parameter p) = d SS / d p of the
-       steady-state concentration / flux of small pathways with closed-form steady states
+       steady-state concentration / flux of small pathways with closed-form steady states (one of
+       them closed, so that its steady state depends on the start values given by ``variables=``)
        (p / SS times that when normalized);
   (FR) every routine leaves ``get_parameter_values()`` and ``get_initial_conditions()`` of the
        caller's model exactly as found (normalized or not, sequential or parallel, with or without
@@ -44,7 +45,7 @@ ROUND = 2e-14  # relative rounding error of one flux evaluation (a few ulp, incl
 #  default integrator: the search runs scipy's lsoda at its default rtol = 1e-6 whatever Scipy.rtol says; the
 #  largest deviation from the closed form seen over 600 sampled parameter sets was 6e-8 (typically 1e-12)
 #  "accurate": the integrator below, handed in through the public integrator= parameter
-SS_ERR = {"default": 5e-7, "accurate": 1e-10}
+SS_ERR = {"default": 5e-7, "accurate": 2e-9}
 DISPLACEMENTS = (1e-4, 1e-2, 1e-6)
 MIN_RELAX = 0.3  # slowest relaxation rate admitted for response coefficients: e^(-0.3 * 100) ~ 1e-13 per search step
 
@@ -192,6 +193,14 @@ NETS = {
             "P": (p["k0"] / p["k2"]) ** (1 / (1 - p["h"])),
         },
     ),
+    "closed": dict(  # conserved total S + P = T_ taken from the start values: the steady state depends on variables=
+        variables=("S", "P"),
+        reactions=[
+            ("v1", r_rev, ["kf", "S", "kr", "P"], {"S": -1, "P": 1}),
+        ],
+        steady=lambda p: {"S": p["T_"] * p["kr"] / (p["kf"] + p["kr"]), "P": p["T_"] * p["kf"] / (p["kf"] + p["kr"])},
+        conserved=True,
+    ),
     "negrate": dict(  # degradation written as production with a negative rate constant
         variables=("S",),
         reactions=[
@@ -236,6 +245,10 @@ RESP_PARAMS = {
         {"k0": 1.0, "k1": 2.0, "k2": 3.0, "h": -2.0},
         {"k0": 3.0, "k1": 1.0, "k2": 1.5, "h": -1.0},
     ],
+    "closed": [
+        {"kf": 2.0, "kr": 0.5},
+        {"kf": 0.7, "kr": 1.9},
+    ],
     "negrate": [
         {"k0": 1.0, "kd": -1.5},
         {"k0": 2.0, "kd": -0.8},
@@ -270,6 +283,8 @@ def _symbols(net):
     names = set(spec["variables"]) | {"time"}
     for _n, _f, args, _s in spec["reactions"]:
         names |= set(args)
+    if spec.get("conserved"):
+        names.add("T_")
     return {n: sympy.Symbol(n, real=True) for n in sorted(names)}
 
 
@@ -310,7 +325,7 @@ def elasticity_oracle(net, wrt, values, d):
         def at(v, fn):
             vals = dict(values)
             vals[wrt] = v
-            return float(fn(*[vals[n] for n in order]))
+            return float(fn(*[vals.get(n, 0.0) if n == "T_" else vals[n] for n in order]))  # T_ occurs in no rate law
 
         v = at(p, f0)
         d1 = at(p, f1)
@@ -395,7 +410,16 @@ def relaxation_rate(net, params) -> float:
 
     fn = _lam(("jac", net), build)
     lam = np.linalg.eigvals(np.array(fn(*[params[n] for n in pnames]), dtype=float))
+    if spec.get("conserved"):
+        lam = lam[np.abs(lam) > 1e-12]  # the conserved total does not relax
     return float(-np.max(lam.real))
+
+
+def oracle_params(net, params, start):
+    """Parameters seen by the oracle: the model's, plus the conserved total of the start values."""
+    if NETS[net].get("conserved"):
+        return dict(params) | {"T_": float(sum(start[v] for v in NETS[net]["variables"]))}
+    return dict(params)
 
 
 def selfcheck_oracle() -> None:
@@ -407,6 +431,7 @@ def selfcheck_oracle() -> None:
         sy, ss, flux = steady_exprs(net)
         spec = NETS[net]
         for p in psets:
+            p = oracle_params(net, p, RESP_Y0)
             subs = {sy[k]: v for k, v in p.items()}
             for var in spec["variables"]:
                 tot = sum(st.get(var, 0) * flux[name] for name, _f, _a, st in spec["reactions"])
@@ -611,6 +636,8 @@ def _cmp_response(routine, res, net, params, scanned, normalized, d, fails, stat
                     continue
                 want = d1
                 if normalized:
+                    if val == 0:
+                        continue  # scaled coefficient of a vanishing steady-state flux (closed network) is undefined
                     want, tol = d1 * params[par] / val, tol * abs(params[par] / val) * 1.01
                 err = abs(got - want)
                 stats["cells"] += 1
@@ -684,7 +711,7 @@ def run_response(case):
             fails.append({"clause": "columns", "routine": routine, "cls": mode,
                           "what": f"{routine}: columns {list(res.variables.columns)} / {list(res.fluxes.columns)} for to_scan {scanned}", "detail": {}})
         sub = []
-        _cmp_response(routine, res, net, params, scanned, normalized, d, sub, stats, integrator=integ)
+        _cmp_response(routine, res, net, oracle_params(net, params, y0 if use_vars else init), scanned, normalized, d, sub, stats, integrator=integ)
         for f in sub:
             f["cls"] = f"{mode}:" + f["cls"]
             f["what"] = f"[{mode}] " + f["what"]
@@ -739,7 +766,7 @@ def run_mc(case):
                                        integrator=AccurateSteadyState if integ == "accurate" else None)
         fails += _frame_failures(routine, before, model, cls)
         for i, p in enumerate(rows):
-            _cmp_response(routine, out, net, p, scanned, normalized, 1e-4, fails, stats, prefix=i, integrator=integ)
+            _cmp_response(routine, out, net, oracle_params(net, p, y0 if use_vars else init), scanned, normalized, 1e-4, fails, stats, prefix=i, integrator=integ)
     return {"failures": fails, "stats": stats}
 
 
@@ -809,7 +836,7 @@ def make_cases(tier: str, rng: random.Random):
     for which in ("variable", "parameter"):
         for normalized in (True, False):
             cases.append({"kind": "mc", "which": which, "net": "powerlaw", "normalized": normalized, "variables_given": True, "rows": mc_rows})
-    for net in ("plchain", "feedback") if tier == "quick" else tuple(RESP_PARAMS):
+    for net in ("plchain", "feedback", "closed") if tier == "quick" else tuple(RESP_PARAMS):
         for normalized in (True, False):
             for use_vars in (False, True):
                 cases.append({"kind": "mc", "which": "response", "net": net, "normalized": normalized, "variables_given": use_vars, "rows": RESP_PARAMS[net],
@@ -831,7 +858,7 @@ def make_cases(tier: str, rng: random.Random):
                         p[k] = -round(rng.uniform(0.6, 4.0), 2)
                     else:
                         p[k] = round(rng.uniform(0.6, 4.0), 2)
-                if relaxation_rate(net, p) < MIN_RELAX:
+                if relaxation_rate(net, oracle_params(net, p, RESP_Y0)) < MIN_RELAX:
                     continue
                 got += 1
                 cases.append({"kind": "response", "net": net, "params": p, "normalized": rng.random() < 0.5, "variables_given": rng.random() < 0.5,
